@@ -25,8 +25,9 @@ LEVEL_TEXT = ("Machine-checked Lean proof, over exact rational arithmetic, that 
 LEVEL_NOTE = ("PARTIAL: the real newRing computes in float64; the theorems are about the same definition instantiated with exact "
               "rationals, the float instance is diffed bit-for-bit against the Go code and the property's predicates (exact, no "
               "tolerance) are monitored on the real ring. The monitor's proportionality predicate is `exists scale in (n-1, n] "
-              "with |count_i - scale*nw_i| < 1 for all i`. Known finding F14: float accumulation of targetHashes yields "
-              "max_ring_size + 1 entries for some weight sets. Domain: distinct hash keys, distinct entry hashes, weights >= 1 with "
+              "with |count_i - scale*nw_i| < 1 for all i`. Known findings F14 / F14b: float accumulation of targetHashes yields "
+              "max_ring_size + 1 entries for some weight sets, and one entry too many for an endpoint whose exact target is an "
+              "integer (both verdicts are accepted only when the ring equals what the float port of the unchanged code predicts). Domain: distinct hash keys, distinct entry hashes, weights >= 1 with "
               "sum < 2^32, 1 <= min_ring_size <= max_ring_size (what the config parser guarantees).")
 GAP = ("float64 rounding inside newRing is not reasoned about (that is exactly where F14 lives); xxhash is a parameter; "
        "resolver/child-policy plumbing of ringhash.go (state aggregation, ring regeneration) is not modelled")
@@ -190,11 +191,6 @@ BOUNDS = [(1, 1), (4, 8), (10, 10), (100, 100), (64, 128), (3, 7), (16, 16), (1,
 def gen(rng, tier):
     n_cases = {"quick": 220, "thorough": 5000, "search": 2500}[tier]
     n_big = {"quick": 2, "thorough": 30, "search": 15}[tier]
-    # F14 witnesses (known finding), each alone in its case
-    w1 = [353, 525, 364, 915, 538, 257, 795, 474]
-    yield Case("ring", [ring_op(rng, ["e%d" % i for i in range(8)], w1, 4, 8)], "F14-witness-4-8")
-    w2 = [795, 966, 256, 665, 54, 923, 161, 116]
-    yield Case("ring", [ring_op(rng, ["e%d" % i for i in range(8)], w2, 100, 100)], "F14-witness-100-100")
     # the 3-endpoint example of ring_test.go
     for mn, mx in [(1, 10), (10, 20), (20, 8), (8, 8)]:
         if mn <= mx:
@@ -213,6 +209,13 @@ def gen(rng, tier):
         keys = rand_keys(rng, n)
         ws = rand_weights(rng, n)
         yield Case("ring", ring_case(rng, keys, ws, 1024, 4096, 6, 6), "ring-big-%d" % j)
+    # F14 witnesses (known finding), each alone in its case
+    w1 = [353, 525, 364, 915, 538, 257, 795, 474]
+    yield Case("ring", [ring_op(rng, ["e%d" % i for i in range(8)], w1, 4, 8)], "F14-witness-4-8")
+    # F14b witness: exact targets 20, 36, .. are integers; float64 gives 20.000000000000004 -> counts 21, 15 instead of 20, 16
+    yield Case("ring", [ring_op(rng, ["e%d" % i for i in range(8)], [10, 8, 3, 5, 7, 1, 9, 6], 64, 128)], "F14b-witness-64-128")
+    w2 = [795, 966, 256, 665, 54, 923, 161, 116]
+    yield Case("ring", [ring_op(rng, ["e%d" % i for i in range(8)], w2, 100, 100)], "F14-witness-100-100")
 
 
 def nontrivial(case, impl_lines):
